@@ -2,7 +2,7 @@ use nom::{
     bytes::complete::tag,
     character::complete::{char, i128},
     combinator::{map, opt},
-    multi::{fold_many0, many0},
+    multi::many0,
     sequence::{preceded, terminated},
     Parser,
 };
@@ -75,21 +75,55 @@ fn enumeral(input: Input<'_>) -> ParserResult<'_, EnumeralInput<'_>> {
     .parse(input)
 }
 
+/// Assigns a number to each enumeral as laid out in X.680 §20:
+/// * explicit numbers are kept
+/// * identifier-only enumerals of the root get successive integers starting at `start_index`,
+///   skipping the numbers that are used explicitly in the root (§20.5)
+/// * identifier-only additional enumerals (`root` is `Some`) get the smallest number that is
+///   not used in the root and that is greater than all preceding additions (§20.4, §20.6)
+fn number_enumerals(
+    items: Vec<EnumeralInput<'_>>,
+    start_index: usize,
+    root: Option<&[Enumeral]>,
+) -> Vec<Enumeral> {
+    let taken: Vec<i128> = match root {
+        Some(root) => root.iter().map(|e| e.index).collect(),
+        None => items.iter().filter_map(|(_, index, ..)| *index).collect(),
+    };
+    let mut next = start_index as i128;
+    items
+        .into_iter()
+        .map(|(name, index, _, comments)| {
+            let index = match index {
+                Some(explicit) => {
+                    if root.is_some() {
+                        next = next.max(explicit.saturating_add(1));
+                    }
+                    explicit
+                }
+                None => {
+                    while taken.contains(&next) {
+                        next += 1;
+                    }
+                    next += 1;
+                    next - 1
+                }
+            };
+            Enumeral {
+                name: name.into(),
+                description: comments.map(|c| c.into()),
+                index,
+            }
+        })
+        .collect()
+}
+
 fn enumerals<'a>(
     start_index: usize,
 ) -> impl Parser<Input<'a>, Output = Vec<Enumeral>, Error = ErrorTree<'a>> {
-    fold_many0(
-        enumeral,
-        Vec::<Enumeral>::new,
-        move |mut acc, (name, index, _, comments)| {
-            acc.push(Enumeral {
-                name: name.into(),
-                description: comments.map(|c| c.into()),
-                index: index.unwrap_or((acc.len() + start_index) as i128),
-            });
-            acc
-        },
-    )
+    map(many0(enumeral), move |items| {
+        number_enumerals(items, start_index, None)
+    })
 }
 
 fn enumerated_body(input: Input<'_>) -> ParserResult<'_, EnumeralBody> {
@@ -100,7 +134,10 @@ fn enumerated_body(input: Input<'_>) -> ParserResult<'_, EnumeralBody> {
             skip_ws_and_comments(opt(char(COMMA))),
         ))
         .parse(input)?;
-        let (input, ext_enumerals) = opt(enumerals(root_enumerals.len())).parse(input)?;
+        let (input, ext_enumerals) = opt(map(many0(enumeral), |items| {
+            number_enumerals(items, 0, Some(&root_enumerals))
+        }))
+        .parse(input)?;
         Ok((input, (root_enumerals, ext_marker, ext_enumerals)))
     })
     .parse(input)
